@@ -25,7 +25,7 @@ ASSUMPTIONS = [
 COMPONENTS = {'real': ['yldprolog.engine query/load_script_from_string/load_script_from_file/register_function/chain_functions/assert_fact/clear', 'compiler output for the snippets'],
               'stub': ['file system seen by load_script_from_file (in-memory fake open, injects I/O errors)', 'native predicates (tagged answers)'],
               'oracle': ['definition-table model: per name/arity facts first, then the chain of definitions registered for exactly that arity, variadic only if none, each definition with its own cut']}
-REQUIRED_PROBES = ('op_reg_decorated', 'op_reg_star-rest', 'assert_with_atom_object_not_current', 'op_reg_partial', 'op_reg_bound-method', 'op_reg_callable-object', 'op_regfail', 'suspended_call_resumed_after_change', 'op_load_overwrite', 'op_load_append', 'op_loadfail_syntax', 'op_loadfail_raise', 'op_loadfail_io', 'op_reg_inferred', 'op_reg_explicit',
+REQUIRED_PROBES = ('readback_through_meta_calls', 'op_reg_decorated', 'op_reg_star-rest', 'assert_with_atom_object_not_current', 'op_reg_partial', 'op_reg_bound-method', 'op_reg_callable-object', 'op_regfail', 'suspended_call_resumed_after_change', 'op_load_overwrite', 'op_load_append', 'op_loadfail_syntax', 'op_loadfail_raise', 'op_loadfail_io', 'op_reg_inferred', 'op_reg_explicit',
                    'op_reg_variadic', 'op_assert', 'op_clear', 'chain_of_2plus_definitions', 'variadic_used', 'variadic_shadowed_by_exact', 'reserved_name_registered',
                    'load_via_file')
 
@@ -276,6 +276,31 @@ def execute(plan):
             want = m.answers(key)[:READ_CAP]
             if got != want:
                 return {'predicate': '%s/%d' % key, 'engine': got[:10], 'model': want[:10]}
+            if key[1] == 0 or len(m.answers(key)) > 60:
+                continue
+            # the same call made by the meta-call builtins: call/1 and findall/3 resolve name/N like any other call
+            vs = [yp.variable() for _ in range(key[1])]
+            try:
+                got = []
+                for _ in yp.query('call', [yp.functor(key[0], vs)]):
+                    got.append([to_python(v) for v in vs])
+                    if len(got) >= READ_CAP:
+                        break
+            except Exception as e:
+                return {'predicate': 'call(%s/%d)' % key, 'raises': type(e).__name__}
+            if got != want:
+                return {'predicate': 'call(%s/%d)' % key, 'engine': got[:10], 'model': want[:10]}
+            vs = [yp.variable() for _ in range(key[1])]
+            bag = yp.variable()
+            try:
+                got = None
+                for _ in yp.query('findall', [yp.functor('row', vs), yp.functor(key[0], vs), bag]):
+                    got = [list(r[1]) for r in to_python(bag)]
+            except Exception as e:
+                return {'predicate': 'findall over %s/%d' % key, 'raises': type(e).__name__}
+            log.count('readback_through_meta_calls')
+            if got != m.answers(key):
+                return {'predicate': 'findall over %s/%d' % key, 'engine': None if got is None else got[:10], 'model': m.answers(key)[:10]}
         return None
 
     def native(tag, yv):
